@@ -116,6 +116,10 @@ var specCounter int
 var specMu sync.Mutex
 
 func runWorker(bin, workDir string, spec sim.WorkerSpec, timeout time.Duration) chunkResult {
+	return runWorkerProcs(bin, workDir, spec, timeout, "")
+}
+
+func runWorkerProcs(bin, workDir string, spec sim.WorkerSpec, timeout time.Duration, procsOverride string) chunkResult {
 	specMu.Lock()
 	specCounter++
 	n := specCounter
@@ -127,6 +131,9 @@ func runWorker(bin, workDir string, spec sim.WorkerSpec, timeout time.Duration) 
 	procs := "1"
 	if spec.Race {
 		procs = "8"
+	}
+	if procsOverride != "" {
+		procs = procsOverride
 	}
 	cmd := exec.Command("sh", "-c", "ulimit -v 12000000; exec \"$0\" -test.run '^TestWorker$' -test.timeout 0 -test.count 1", bin)
 	cmd.Env = append(os.Environ(), "VERIF_SPEC="+base+".spec", "GOMAXPROCS="+procs, "GORACE=halt_on_error=0 log_path="+base+".race")
@@ -459,6 +466,12 @@ func check(prop, tier string) int {
 			}
 			// minimise, then decide again on the minimised features
 			mv, msc, mhash, mtrace, note := minimise(work, prop, v, vr)
+			if mv == nil {
+				// the minimiser died (a candidate can crash the worker): fall back to
+				// the scenario as found, replayed in a fresh process
+				mv, msc, mhash, mtrace, note = replayOriginal(work, prop, v, vr)
+				note = "not minimised: " + note
+			}
 			if mv == nil {
 				exit2 = fmt.Sprintf("violation %s of run %d (seed %d) did not reproduce in a fresh process: %s", v.Sig(), vr.run, vr.seed, note)
 				continue
@@ -852,6 +865,23 @@ func minimise(work, prop string, v sim.Violation, vr violRec) (*sim.Violation, *
 		}
 	}
 	return nil, nil, "", nil, "minimiser produced no result: " + tail(res.stderr, 5)
+}
+
+func replayOriginal(work, prop string, v sim.Violation, vr violRec) (*sim.Violation, *sim.Scenario, string, []string, string) {
+	bin := filepath.Join(root, "bin", "worker.test")
+	scPath := filepath.Join(work, fmt.Sprintf("orig-%d.json", vr.run))
+	os.WriteFile(scPath, vr.sc.JSON(), 0o644)
+	res := runWorker(bin, work, sim.WorkerSpec{Mode: "replay", Prop: prop, Scenario: scPath}, 10*time.Minute)
+	for _, l := range res.lines {
+		if l.T == "replay" {
+			for i := range l.Viol {
+				if l.Viol[i].Sig() == v.Sig() {
+					return &l.Viol[i], l.Scenario, l.Hash, l.Trace, "minimiser failed"
+				}
+			}
+		}
+	}
+	return nil, nil, "", nil, "original scenario did not reproduce either"
 }
 
 func writeReplay(prop string, v sim.Violation, sc *sim.Scenario, hash string, trace []string, vr violRec) string {
